@@ -277,9 +277,9 @@ class NetStation(_StationBase):
             if self._in_send > 1:
                 self.overlaps += 1
             self._reg[0] = msg.arbitration_id
-            time.sleep(0)
+            time.sleep(0.0001)
             self._reg[1] = bytes(msg.data)
-            time.sleep(0)
+            time.sleep(0.0001)
             self._reg[2] = msg.is_extended_id
             self._reg[3] = msg.is_remote_frame
             can_id, data, ext, rtr = self._reg
